@@ -125,6 +125,58 @@ def cycle_case(_=None):
   return 9, 3, viols, [dict(scenario='cycles')]
 
 
+class Sampler:
+  """User-registered node type whose flatten creates temporary *leaves* (fresh floats / strs)."""
+
+  def __init__(self, base, n):
+    self.base, self.n = base, n
+
+
+_reg = [False]
+
+
+def temp_leaves_case(_=None):
+  """Temporaries created while traversing must not be confused with each other: memoized
+  traversal must report every path and give every node its own results."""
+  viols = []
+  def bad(what):
+    viols.append(dict(kind='temps', spec='temps', what=what, sig='temp-leaves', store='', op=''))
+  if not _reg[0]:
+    daglish.register_node_traverser(
+        Sampler,
+        flatten_fn=lambda s: (tuple(float(s.base + i) * 1.5 for i in range(s.n)) + (f'name-{s.base}',), (s.base, s.n)),
+        unflatten_fn=lambda values, md: ('sampler', md, tuple(values)),
+        path_elements_fn=lambda s: tuple(daglish.Index(i) for i in range(s.n + 1)))
+    _reg[0] = True
+  for width in (1, 2, 3):
+    nodes = [Sampler(i * 10, width) for i in range(150)]
+    root = {'nodes': nodes}
+    exp_paths = 1 + 1 + len(nodes) * (1 + width + 1)
+    # consume the traversal in a streaming fashion (nothing keeps the temporaries alive)
+    count = 0
+    seen_paths = set()
+    for value, path in daglish.iterate(root, memoized=True):
+      count += 1
+      seen_paths.add(daglish.path_str(path))
+    del value
+    if count != exp_paths or len(seen_paths) != exp_paths:
+      bad(f'memoized iterate() reported {len(seen_paths)} distinct of {exp_paths} paths (width {width})')
+    def tf(v, s):
+      if isinstance(v, float):
+        return int(v * 2)           # a fresh result; the temporary float is dropped
+      if isinstance(v, str):
+        return len(v) * 1000 + int(v.split('-')[1])
+      return s.map_children(v) if s.is_traversable(v) else v
+    rebuilt = daglish.MemoizedTraversal.run(tf, root)
+    for i, r in enumerate(rebuilt['nodes']):
+      want = tuple(int(float(i * 10 + j) * 1.5 * 2) for j in range(width)) + (
+          len(f'name-{i * 10}') * 1000 + i * 10,)
+      if r[2] != want:
+        bad(f'node {i} was rebuilt with another node\'s children: {r[2]} instead of {want}')
+        break
+  return 3, 3, viols, [dict(scenario='temporary leaves of a registered node type')]
+
+
 def special_cases(_=None):
   viols = []
   def bad(what):
@@ -150,7 +202,9 @@ def special_cases(_=None):
 
 
 def replay(case):
-  if case['kind'] == 'cycle':
+  if case['kind'] == 'temps':
+    r = temp_leaves_case()
+  elif case['kind'] == 'cycle':
     r = cycle_case()
   elif case['kind'] == 'special':
     r = special_cases()
@@ -168,6 +222,7 @@ def run(tier='quick', seed=0, nproc=16):
   res = common.pmap(check_structure, gen.shuffled(jobs), nproc)
   res.append(cycle_case())
   res.append(special_cases())
+  res.append(temp_leaves_case())
   return common.merge(
       res, 'layerb.prop_C08',
       rule='every DAG shape <= %d nodes over Config/list/tuple/dict + pool configurations '
